@@ -654,10 +654,16 @@ def delay_line_c05(rng, depth):
     else:
         body.append(["assign", src, ["mul", num(2), ["add", var(src), num(1)]]])
     body.append(["assign", "z", ["add", var("z"), ["pow", var(names[0]), 2]]])
-    if rng.random() < 0.4:
+    guard = ["true"]
+    if rng.random() < 0.25:
+        # the delay line under a loop guard: no assignment is unconditional any more
+        body.insert(rng.choice([0, len(body)]), ["assign", "f", ["draw", "Bernoulli", [num(Fraction(1, 2))]]])
+        init.append(["assign", "f", num(1)])
+        guard = ["cmp", var("f"), "==", num(1)]
+    elif rng.random() < 0.4:
         body.insert(0, ["assign", "f", ["draw", "Bernoulli", [num(Fraction(1, 2))]]])
         init.append(["assign", "f", num(0)])
-    return {"types": [], "init": init, "guard": ["true"], "body": body}
+    return {"types": [], "init": init, "guard": guard, "body": body}
 
 
 def guard_to_if(prog, rng):
